@@ -131,6 +131,21 @@ Definition settings_of (s : state) : state := set_s_users [] (set_s_builtins [] 
 Definition bsync (chars : str) (l : list expr_obj) : list expr_obj :=
   map (fun e => if e_copydef e then set_e_white chars e else e) l.
 
+(* `with reset_pyparsing_context(): body` executed in world w: the context object it creates gets index length (w_ctxs w) *)
+Definition with_block (body : list op) (w : world) : list op := OSave :: body ++ [ORestore (length (w_ctxs w))].
+
+(* packrat and left recursion not both enabled; packrat enabled => a real cache object is installed;
+   the caching _parse is bound exactly when packrat is enabled *)
+Definition good (s : state) : Prop :=
+  s_packrat s && s_lr s = false /\ (s_packrat s = true -> s_pcache s <> PNull) /\
+  s_parse s = (if s_packrat s then ParseCache else ParseNoCache).
+
+(* built-ins whose whitespace follows the default *)
+Definition builtins_synced (s : state) : Prop := bsync (s_ws s) (s_builtins s) = s_builtins s.
+
+(* the world right after `import pyparsing` (b = the built-in expressions) *)
+Definition import_world (b : list expr_obj) : world := mkWorld (initial_state b) [].
+
 (* ---- the pinned (pre-fix) save/restore, for the refutation witnesses only --------------------------- *)
 Definition old_with (body : state -> state) (s : state) : option (result state) :=
   match old_save s with
